@@ -43,8 +43,14 @@ def check_pair(viol, lab, f_call, f_s1, x, ref_f, n_expected, fd=True,
     for likelihoods driven by a numerically integrated model, whose plain and
     sensitivity-augmented systems are integrated separately)."""
     x = np.asarray(x, dtype=float)
-    plain = f_call(x.copy())
-    res = f_s1(x.copy())
+    if len(lab) % 2:
+        # (every other object is asked for sensitivities first: the very first
+        # evaluation of an object may be either entry point)
+        res = f_s1(x.copy())
+        plain = f_call(x.copy())
+    else:
+        plain = f_call(x.copy())
+        res = f_s1(x.copy())
     score, grad = res[0], np.asarray(res[1], dtype=float)
     plain2 = f_call(x.copy())   # history: call, S1, call
     res2 = f_s1(x.copy())
